@@ -692,6 +692,8 @@ func c18GenElem(rt *rapid.T, style int) []byte {
 		return []byte{}
 	case 2:
 		return rapid.SliceOfN(rapid.Byte(), 32, 32).Draw(rt, "e32")
+	case 4:
+		return make([]byte, 32) // the zero hash as DATA (zero-extended pieces, H_0-looking elements)
 	default:
 		l := rapid.IntRange(1, 40).Draw(rt, "el")
 		return rapid.SliceOfN(rapid.Byte(), l, l).Draw(rt, "e")
@@ -706,7 +708,8 @@ func c18Gen(maxLen int) func(rt *rapid.T) c18Input {
 			n = maxLen
 		}
 		// case-level mode (DESIGN: random / empty / nil / first element empty)
-		mode := rapid.SampledFrom([]string{"random", "random", "random", "hashes", "mixed_empty", "mixed_nil", "first_empty", "first_nil", "all_empty", "all_nil"}).Draw(rt, "mode")
+		mode := rapid.SampledFrom([]string{"random", "random", "random", "hashes", "mixed_empty", "mixed_nil", "first_empty", "first_nil", "all_empty", "all_nil", "zero_tail", "zero_runs"}).Draw(rt, "mode")
+		zeroFrom := rapid.IntRange(0, n).Draw(rt, "zero_from")
 		in := c18Input{Keccak: rapid.Bool().Draw(rt, "keccak")}
 		in.Elems = make([][]byte, n)
 		for i := 0; i < n; i++ {
@@ -726,6 +729,12 @@ func c18Gen(maxLen int) func(rt *rapid.T) c18Input {
 				if i == 0 {
 					style = 0
 				}
+			case "zero_tail": // data followed by a run of 32-zero-byte elements of any length (not only powers of two)
+				if i >= zeroFrom {
+					style = 4
+				}
+			case "zero_runs":
+				style = rapid.SampledFrom([]int{4, 4, 4, 3}).Draw(rt, "st")
 			case "all_empty":
 				style = 1
 			case "all_nil":
